@@ -777,6 +777,10 @@ class EncodingParser(object):
             if endTag:
                 data.previous()
                 self.handleOther()
+            else:
+                # nothing starts at this "<": the byte after it must still
+                # be examined by the main loop (it may be another "<")
+                data.previous()
             return True
 
         c = data.skipUntil(spacesAngleBrackets)
